@@ -116,12 +116,17 @@ Section C04.
     intros E. assert (Ep : rq_path r = rq_path r') by (apply path_query_path; exact E).
     assert (K1 : key_pq r = key_pq r') by (unfold key_pq; rewrite E; reflexivity).
     assert (K2 : key_p r = key_p r') by (unfold key_p; rewrite Ep; reflexivity).
-    unfold lookup, clear_page. rewrite K1, K2.
-    rewrite get_item_none.
-    - rewrite get_item_none; [reflexivity|].
-      rewrite c_find_remove, key_eqb_refl. reflexivity.
-    - rewrite c_find_remove. destruct (key_eqb (key_pq r') (key_p r')); [reflexivity|].
-      rewrite c_find_remove, key_eqb_refl. reflexivity.
+    assert (G : forall k r1 c1, c_find k c1 = None -> c_find k (clear_uri r1 c1) = None).
+    { intros k r1 c1 Hn. unfold clear_uri. rewrite !c_find_remove.
+      destruct (key_eqb k (key_p r1)); [reflexivity|]. destruct (key_eqb k (key_pq r1)); [reflexivity|]. exact Hn. }
+    assert (U1 : c_find (key_pq r') (clear_uri r' c) = None).
+    { unfold clear_uri. rewrite c_find_remove. destruct (key_eqb (key_pq r') (key_p r')); [reflexivity|].
+      rewrite c_find_remove, key_eqb_refl. reflexivity. }
+    assert (U2 : c_find (key_p r') (clear_uri r' c) = None).
+    { unfold clear_uri. rewrite c_find_remove, key_eqb_refl. reflexivity. }
+    unfold lookup, clear_page. rewrite K1, K2. destruct (redirect_target r') as [r''|].
+    - rewrite get_item_none by (apply G, U1). rewrite get_item_none by (apply G, U2). reflexivity.
+    - rewrite get_item_none by exact U1. rewrite get_item_none by exact U2. reflexivity.
   Qed.
   Lemma clear_all_is_miss r now : snd (fst (lookup r [] now)) = None.
   Proof. reflexivity. Qed.
